@@ -169,9 +169,11 @@ inductive Pos where
   -- argument → cache: the query a `Cursor` keeps (`Cursor.__init__`)
   | cursorSpec     -- the filter of `find`, kept as `Cursor._spec`
   | cursorProj     -- the projection of `find` (dict or list), kept as `Cursor._projection`
+  | cursorSort     -- the sort list of `find`, kept as `Cursor._sort`
   -- cache → cache: what `Cursor.clone()` takes from the cursor it clones
   | cloneSpec      -- its `_spec`
   | cloneProj      -- its `_projection`
+  | cloneSort      -- its `_sort`
   -- store → cache: what `Collection._get_dataset` yields, kept by the `Cursor` (`_results`)
   | findDoc        -- a document read without projection
   | projField      -- a field copied by a projection (`_project_by_spec`)
@@ -200,7 +202,7 @@ inductive Pos where
 def Pos.all : List Pos :=
   [.insertArg, .insertDoc, .updTemp, .setValDoc, .setValList, .setOnInsertVal, .minMaxVal, .pushVal, .pushEach,
    .addToSetVal, .addToSetEach, .positionalSet, .replaceVal, .upsertSeed, .upsertId, .upsertInsert,
-   .rollbackSnapshot, .cursorSpec, .cursorProj, .cloneSpec, .cloneProj, .findDoc, .projField, .projId,
+   .rollbackSnapshot, .cursorSpec, .cursorProj, .cursorSort, .cloneSpec, .cloneProj, .cloneSort, .findDoc, .projField, .projId,
    .projOpStored, .projOpCopied, .cursorOut, .distinctVal, .aggDoc, .aggAddFields, .aggUnwind,
    .aggAddItemVal, .aggLookup, .insertedId, .upsertedId, .aggLiteral, .aggAddItemLit]
 
@@ -212,7 +214,7 @@ def Pos.name : Pos → String
   | .replaceVal => "replaceVal" | .upsertSeed => "upsertSeed" | .upsertId => "upsertId"
   | .upsertInsert => "upsertInsert" | .rollbackSnapshot => "rollbackSnapshot"
   | .cursorSpec => "cursorSpec" | .cursorProj => "cursorProj" | .cloneSpec => "cloneSpec"
-  | .cloneProj => "cloneProj" | .aggAddItemVal => "aggAddItemVal" | .aggLookup => "aggLookup"
+  | .cloneProj => "cloneProj" | .cursorSort => "cursorSort" | .cloneSort => "cloneSort" | .aggAddItemVal => "aggAddItemVal" | .aggLookup => "aggLookup"
   | .aggAddItemLit => "aggAddItemLit"
   | .findDoc => "findDoc" | .projField => "projField" | .projId => "projId"
   | .projOpStored => "projOpStored" | .projOpCopied => "projOpCopied" | .cursorOut => "cursorOut"
@@ -231,8 +233,8 @@ def Pos.flow : Pos → Flow
   | .pushVal | .pushEach | .addToSetVal | .addToSetEach | .positionalSet | .replaceVal | .upsertSeed
   | .upsertId | .upsertInsert => .argToStore
   | .rollbackSnapshot => .storeToStore
-  | .cursorSpec | .cursorProj => .argToCache
-  | .cloneSpec | .cloneProj => .cacheToCache
+  | .cursorSpec | .cursorProj | .cursorSort => .argToCache
+  | .cloneSpec | .cloneProj | .cloneSort => .cacheToCache
   | .findDoc | .projField | .projId | .projOpStored | .projOpCopied => .storeToCache
   | .cursorOut | .distinctVal => .cacheToCaller
   | .aggDoc | .aggAddFields | .aggUnwind | .aggAddItemVal | .aggLookup | .insertedId
@@ -270,8 +272,11 @@ def tzRebuild (tzAware : Bool) : List Prim := if tzAware then [.rebuild] else []
       (`cursorSpec`), 2044 `projection = copy.deepcopy(projection)` (`cursorProj`; since the fix "a
       cursor copies the projection it is given" b829c96 — before it the caller's dict was kept and
       read when the results were computed, so editing it after `find` returned changed what the
-      cursor gave).  `clone()` 2082-2087 builds a new `Cursor` from the kept `_spec` /
-      `_projection`, which copies them again (`cloneSpec`, `cloneProj`).
+      cursor gave; 0c1b9e0 also patches the copy: `patch_datetime…(copy.deepcopy(projection))`),
+      `sort = copy.deepcopy(sort)` (`cursorSort`; since 0c1b9e0 — before it the caller's list was
+      kept and read when the results were computed).  `clone()` builds a new `Cursor` from the
+      kept `_spec` / `_sort` / `_projection`, which copies them again (`cloneSpec`, `cloneSort`,
+      `cloneProj`).
     * `Cursor._compute_results` 2056-2066 computes `list(self._factory())` once and keeps it
       (`self._results`): the copies listed above land in the cursor's CACHE, not with the caller;
       on a `tz_aware` client each is rebuilt once more (2063
@@ -322,9 +327,11 @@ def disciplineFor (tzAware : Bool) : Table where
     | .upsertInsert => [.rebuild]
     | .rollbackSnapshot => [.deepcopy]
     | .cursorSpec => [.rebuild]
-    | .cursorProj => [.deepcopy]   -- was noCopy: cursor-projection-by-reference, fixed (b829c96)
+    | .cursorProj => [.deepcopy, .rebuild]   -- was noCopy: cursor-projection-by-reference, fixed (b829c96); rebuild: 0c1b9e0
+    | .cursorSort => [.deepcopy]   -- was noCopy: cursor-sort-by-reference, fixed (0c1b9e0)
     | .cloneSpec => [.rebuild]
-    | .cloneProj => [.deepcopy]
+    | .cloneProj => [.deepcopy, .rebuild]
+    | .cloneSort => [.deepcopy]
     | .findDoc => .copyField :: tzRebuild tzAware
     | .projField => .copyField :: tzRebuild tzAware
     | .projId => .copyField :: tzRebuild tzAware
@@ -352,7 +359,7 @@ def Table.aliasing (T : Table) : List Pos := Pos.all.filter (fun p => !chainDeep
 
 /-- What is stored (one tree per document), what the caller holds (every argument ever passed and
     every result ever returned), what the caller's cursors keep (`Cursor._results`: one tree per
-    cached result, and their copies of the query, `Cursor._spec` / `_projection`; all cursors one
+    cached result, and their copies of the query, `Cursor._spec` / `_sort` / `_projection`; all cursors one
     after the other; the caller holds the cursors, not these objects) and the next unused
     identity. -/
 structure World where
@@ -687,10 +694,10 @@ def replaceRows : List Pos := [.updTemp, .replaceVal, .rollbackSnapshot]
 def upsertRows : List Pos := [.setOnInsertVal, .upsertSeed, .upsertId, .upsertInsert, .upsertedId]
 def projRows : List Pos := [.findDoc, .projField, .projId, .projOpStored, .projOpCopied]
 /-- a read makes a cursor, which keeps its copy of the query, and hands out what it has cached -/
-def readRows : List Pos := [.cursorSpec, .findDoc, .cursorOut]
-def projReadRows : List Pos := [.cursorSpec, .cursorProj] ++ projRows ++ [.cursorOut]
+def readRows : List Pos := [.cursorSpec, .cursorSort, .findDoc, .cursorOut]
+def projReadRows : List Pos := [.cursorSpec, .cursorSort, .cursorProj] ++ projRows ++ [.cursorOut]
 /-- a cursor the caller keeps: a `clone()` copies the query again -/
-def cursorRows : List Pos := [.cloneSpec, .cloneProj] ++ projRows
+def cursorRows : List Pos := [.cloneSpec, .cloneSort, .cloneProj] ++ projRows
 
 /-- the positions an operation can use -/
 def Op.rows : Op → List Pos
@@ -733,7 +740,7 @@ inductive ArgFx where
   deriving DecidableEq, Repr
 
 inductive ArgRole where
-  | document | filter | update | replacement | projection | pipeline | key
+  | document | filter | update | replacement | projection | sort | pipeline | key
   deriving DecidableEq, Repr
 
 def argEffect : Op → ArgRole → ArgFx
